@@ -2,6 +2,7 @@ package main
 
 import "os"
 
+// (this file: stand-alone replay for argot taint; case.go.txt is the form used by ./check C02)
 // F5 (C02): validator conditions are collected along ONE path between two blocks.
 // Run with six extra arguments: the bypass arm is taken and "tainted" reaches the sink;
 // `argot taint` (validators: ^validate$) reports no flow.
